@@ -186,6 +186,7 @@ type Solver struct {
 	Timeout  int
 	All      bool // thorough: ask every back end
 	cacheDir string
+	noRetry  bool
 	mu       sync.Mutex
 	seq      int
 }
@@ -359,4 +360,50 @@ func (s *Solver) SolveAll(sp *Specs, obls []*Obligation, workers int) {
 		})
 	}
 	par(jobs)
+	// Phase 3: an obligation that no back end decided within the time limit gets one more, much
+	// longer, attempt with little running in parallel. On a loaded machine a query that normally
+	// takes a second can run into the limit; that must not be reported as a failed obligation.
+	// (A genuinely failing obligation only costs more time before it is reported.)
+	if s.noRetry {
+		return
+	}
+	retry := map[string][]*Obligation{}
+	var rnames []string
+	for _, o := range obls {
+		if o.Kind == "canary" {
+			continue
+		}
+		if o.Result == nil || o.Result.Status == "unknown" {
+			if _, ok := retry[o.Name]; !ok {
+				rnames = append(rnames, o.Name)
+			}
+			retry[o.Name] = append(retry[o.Name], o)
+		}
+	}
+	if len(rnames) == 0 || len(rnames) > 60 {
+		return
+	}
+	saved := s.Timeout
+	s.Timeout = saved * 3
+	jobs = nil
+	for _, n := range rnames {
+		g := retry[n]
+		jobs = append(jobs, func() {
+			for _, o := range g {
+				r := &SolveResult{}
+				if o.Result != nil {
+					r.Tried, r.Secs, r.Size = o.Result.Tried, o.Result.Secs, o.Result.Size
+				}
+				o.Result = s.solveWith(sp, o, []int{0, 2}, r)
+				if o.Result.Status != "unsat" {
+					return
+				}
+			}
+		})
+	}
+	w := workers
+	workers = 4
+	par(jobs)
+	workers = w
+	s.Timeout = saved
 }
